@@ -150,6 +150,7 @@ type scen struct {
 	seed    int64
 	idx     int
 	rng     *rand.Rand
+	qrng    *rand.Rand // separate stream for the read-only API bursts
 	d       *daemon.OrderedDaemon
 	ws      []*wk
 	byName  map[string]*wk
@@ -616,6 +617,10 @@ func (s *scen) run() bool {
 			s.c.Note("registration of a fresh name before Start refused: " + err.Error())
 		}
 	}
+	s.queries("before-start", nil)
+	if s.dirty {
+		return s.cleanup()
+	}
 	if s.started {
 		if s.useRun {
 			s.runner = s.actor("runner")
@@ -633,6 +638,8 @@ func (s *scen) run() bool {
 				s.c.Note("worker registered before Start was not started by Start")
 			}
 		}
+		s.checkPre()
+		s.queries("running", nil)
 		s.checkPre()
 	} else {
 		s.tr("daemon is never started")
@@ -741,6 +748,8 @@ func (s *scen) run() bool {
 		}
 		if s.started {
 			s.checkPre()
+			s.queries("running", nil)
+			s.checkPre()
 		}
 	}
 	if s.dirty {
@@ -785,6 +794,14 @@ func (s *scen) run() bool {
 	}
 
 	// --- shutdown
+	if s.started {
+		s.queries("running", nil) // right before the shutdown request
+	} else {
+		s.queries("before-start", nil)
+	}
+	if s.dirty {
+		return s.cleanup()
+	}
 	nCallers := 1
 	if rng.Intn(5) < 2 {
 		nCallers = 2 + rng.Intn(3)
@@ -800,6 +817,10 @@ func (s *scen) run() bool {
 	step := 0
 	for !s.dirty {
 		gs = s.checkShutdown(gs)
+		if !s.dirty && !(s.late != nil && s.late.done && s.late.w.accepted && s.late.w.live()) {
+			gs = s.queries("shutdown-requested", gs)
+			gs = s.checkShutdown(gs)
+		}
 		if s.late != nil && !s.late.released && s.late.mode == "mid" && step >= s.late.midAfter {
 			s.releaseLate(!s.shutdownView(gs).inProgress())
 			gs = s.settle()
@@ -917,6 +938,7 @@ func (s *scen) run() bool {
 				s.settle()
 			}
 		}
+		s.queries("after-shutdown", nil)
 		// after shutdown: nothing can be added or started
 		w := newWk(s.newName(), 0, false)
 		err, pan, blocked := s.register(w)
@@ -1026,6 +1048,6 @@ func (s *scen) cleanup() bool {
 }
 
 func runScenario(c *vf.Ctx, seed int64, idx int) bool {
-	s := &scen{c: c, seed: seed, idx: idx, rng: rand.New(rand.NewSource(seed)), byName: map[string]*wk{}, viols: map[string]bool{}, flags: map[string]bool{}}
+	s := &scen{c: c, seed: seed, idx: idx, rng: rand.New(rand.NewSource(seed)), qrng: rand.New(rand.NewSource(seed ^ 0x5eed0c20)), byName: map[string]*wk{}, viols: map[string]bool{}, flags: map[string]bool{}}
 	return s.run()
 }
